@@ -99,4 +99,14 @@ MORE['C13'] = dict(
           "the restarted node agrees with a node that never crashed, no operation is left over or missing; nodediff ties the node model (duplicate deliveries included)."),
     ref='7 C13', note=NODE_NOTE)
 
+MORE['C14'] = dict(
+    technique='Lean 4 theorems (every interleaving of two step sequences whose steps commute pairwise equals the serial order, for any state type; the pool operations of poller and API commute as atomic steps; the lock discipline is read off the source; explicit lost-update schedule for the unlocked sequences; explicit schedule for the reset finding) + exploration of real interleavings with up to three pre-emptions (scheddiff)',
+    text=("Proof, partial. lean/Dc4bcVerif/Props/C14.lean: interleaving_eq_serial / interleaving_eq_serial' (any state type, any step functions: pairwise commuting steps => EVERY interleaving, with any number of pre-emptions, ends in the state of "
+          "either serial order), put_del_commute, no_lost_no_resurrected, pool_interleaving_serial (creating operations and retiring other operations, as atomic steps: nothing created is lost, nothing retired comes back), repo_rmw_locked (kernel-evaluated over "
+          "the generated lock facts: PutOperation, DeleteOperation, GetOperations hold the repository mutex for their whole body and do not re-enter it), unlocked_rmw_loses_put (the pinned tree's sequences lose a new operation with one pre-emption), "
+          "reset_during_tick_skips_log (KNOWN-FINDING C14-reset-during-poll: a reset inside a poll tick leaves the new database at an advanced offset). Not proved: the Go memory model / that a mutex-protected sequence is an atomic step; the round-state blob "
+          "under an API request that finishes a re-initialisation concurrently with polling (not explored). Tie: scheddiff runs the two activities as goroutines over the same real services and enumerates schedules with up to 3 pre-emptions at the granularity of "
+          "state-store reads/writes and board sends; the final state must equal one of the two serial orders."),
+    ref='7 C14', note=NODE_NOTE)
+
 NOT_APPLICABLE = {}
